@@ -39,6 +39,12 @@ template <typename array_t> static std::string do_var(const array_t& arr, const 
 template <typename array_t> static std::string do_norm(const array_t& arr, const Args& a) {
     bool keep = c08::keepdims_of(a); bool eager = get(a, "api") == "array";
     int ord = has(a, "ord") ? (int)integer(a, "ord") : 2;
+    int den = has(a, "ordden") ? (int)integer(a, "ordden") : 1;
+    if (den != 1) {     // a real order `ord/ordden` (e.g. 2.5), passed as double
+        double ordf = (double)ord / (double)den;
+        if (eager) throw bad_args("ordden");      // lazy view only (keeps the build time of this TU down)
+        return c08::with_axis(a, [&](const auto& axis) { return c08::emit(view::vector_norm(arr, axis, keep, ordf)); });
+    }
     return c08::with_axis(a, [&](const auto& axis) {
         if (!eager) return c08::emit(view::vector_norm(arr, axis, keep, ord));
         return keep ? c08::emit(na::vector_norm(arr, axis, nm::True, ord)) : c08::emit(na::vector_norm(arr, axis, nm::False, ord));
@@ -58,7 +64,7 @@ template <typename array_t> static std::string do_fsum(const array_t& arr, const
     });
 }
 
-// the TU is compiled three times (-DC08F_PART=1|2|3) so that the parts build in parallel
+// the TU is compiled four times (-DC08F_PART=1|2|3|4) so that the parts build in parallel
 #ifndef C08F_PART
 #define C08F_PART 0
 #endif
@@ -73,6 +79,8 @@ template <typename array_t> static std::string dispatch(const std::string& op, c
 #endif
 #if C08F_PART == 0 || C08F_PART == 3
     if (op == "vector_norm") return do_norm(arr, a);
+#endif
+#if C08F_PART == 0 || C08F_PART == 4
     if (op == "trace") return do_trace(arr, a);
 #endif
     return "unknown-op";
@@ -80,7 +88,7 @@ template <typename array_t> static std::string dispatch(const std::string& op, c
 
 std::string handle(const std::string& op, const Args& a) {
     std::string et = has(a, "et") ? get(a, "et") : "f64";
-#if C08F_PART == 0 || C08F_PART == 3
+#if C08F_PART == 0 || C08F_PART == 4
     if (op == "fsum") {
         if (et == "f32") return do_fsum(c08::make_array<farr_t>(a), a);
         return do_fsum(c08::make_array<darr_t>(a), a);
